@@ -567,6 +567,10 @@ def run(tier):
     import x20_tree
     if x20_tree.enabled():
         x20_tree.run_part(ck, tier)
+    # extension X21: the generic object front doors (checks/x21_objset.py, docs/X21_objset.md)
+    import x21_objset
+    if x21_objset.enabled():
+        x21_objset.run_part(ck, tier)
     return ck.finish()
 
 
@@ -576,6 +580,9 @@ def replay(path):
     if det.get("x20"):
         import x20_tree
         return x20_tree.replay(det, path)
+    if det.get("x21"):
+        import x21_objset
+        return x21_objset.replay(det, path)
     beh = det.get("behaviour")
     if not beh:
         print(json.dumps(det, indent=1)[:4000])
